@@ -191,7 +191,15 @@ pub trait ByteReader {
         Self: Sized,
         D: Deserializable,
     {
-        let mut result = Vec::with_capacity(num_elements);
+        // `num_elements` usually comes from the data being read and cannot be trusted: a huge count
+        // must not overflow the capacity computation or exhaust memory before a single element has
+        // been read, so only a bounded amount is pre-allocated and the vector grows from there as
+        // elements are actually read
+        const MAX_PREALLOCATED_BYTES: usize = 1 << 16;
+        let max_preallocated_elements =
+            MAX_PREALLOCATED_BYTES / core::cmp::max(core::mem::size_of::<D>(), 1);
+        let mut result =
+            Vec::with_capacity(core::cmp::min(num_elements, max_preallocated_elements));
         for _ in 0..num_elements {
             let element = D::read_from(self)?;
             result.push(element)
